@@ -140,6 +140,11 @@ func canonJSON(b []byte) string {
 	return canonVal(v)
 }
 
+// a separate frame, so that a race report on the bytes MarshalJSON returned names the operation
+//
+//go:noinline
+func canonOfMarshalJSON(b []byte) string { return canonJSON(b) }
+
 func canonVal(v interface{}) string {
 	var sb strings.Builder
 	var walk func(v interface{})
@@ -227,7 +232,7 @@ func apply(root *ast.Node, op *Op) (res string) {
 		if err != nil {
 			return errClass(err)
 		}
-		return "json " + canonJSON(b)
+		return "json " + canonOfMarshalJSON(b)
 	case "Interface":
 		v, err := n.Interface()
 		return errClass(err) + " " + canonVal(v)
